@@ -296,6 +296,7 @@ def main():
 
     # ---- campaign
     tasks = []
+    reuse_workers = 0
     for ji, j in enumerate(jobs):
         exe = bins[(j["src"], tuple(j.get("defines", ())), j.get("variant", "prod"))]
         nw = j.get("workers", 4)
@@ -323,6 +324,7 @@ def main():
             # keep the quarantine (no address is ever reused), which detects every use-after-free
             if w % 2 == 1 and not j.get("weak") and "reuse" not in j.get("params", {}) and not j.get("no_reuse"):
                 cmd += ["--param", "reuse=1"]
+                reuse_workers += 1
             for kv in os.environ.get("VERIF_EXTRA_PARAMS", "").split():  # experiments only, e.g. "reuse=1"
                 cmd += ["--param", kv]
             for f in known.get("open", []):
@@ -448,6 +450,8 @@ def main():
             "excluded_by_known_findings": sum(known_hits.values()),
             "known_finding_hits": known_hits,
             "known_findings_reported": len(known_lines),
+            "address_reuse": {"workers_total": len(tasks), "workers_with_reuse": reuse_workers, "cases_in_which_a_freed_block_was_reused": labels.get("address_reused", 0),
+                              "note": "workers with reuse hand freed blocks of the xenium arena out again (ABA reachable); the others quarantine every freed block (every use-after-free visible)"},
             "health_warnings": health,
             "build_s": round(t_build, 1),
             "xenium_root": XROOT,
